@@ -1803,3 +1803,143 @@ Section Real.
   Qed.
 
 End Real.
+
+(* ================================================================================================== *)
+(* Part C: total-force coupling                                                                        *)
+(* ================================================================================================== *)
+Section TotalForceR.
+  Local Open Scope R_scope.
+
+  Lemma tf_report_sub ft fold : ft <> 0 -> tf_report Rops true true ft fold = ft - fold.
+  Proof.
+    intros H. unfold tf_report. cbn [andb nltb nmul n0 nsub Rops].
+    assert (L : Rltb 0 (ft * ft) = true) by (apply Rltb_true; nra).
+    rewrite L. reflexivity.
+  Qed.
+
+  Lemma tf_trace_spec hist : forall prev fold t s f x,
+    nth_error hist t = Some (s, f) -> s + f <> 0 ->
+    nth_error (tf_trace Rops true true prev fold hist) (S t) = Some x -> x = s.
+  Proof.
+    induction hist as [|[s0 f0] r IH]; intros prev fold t s f x Ht Hnz Hx; [destruct t; discriminate|].
+    cbn [tf_trace nth_error] in Hx.
+    destruct t as [|t]; cbn [nth_error] in Ht.
+    - inversion Ht; subst s0 f0. destruct r as [|[s1 f1] r']; [discriminate|].
+      cbn [tf_trace nth_error] in Hx. inversion Hx; subst x.
+      unfold tf_end, engine_total. cbn [nadd Rops]. rewrite tf_report_sub by exact Hnz. lra.
+    - apply (IH _ _ t s f x Ht Hnz Hx).
+  Qed.
+
+  (* the sample seen at step t+1 is the system force of step t, whatever Colvars applied *)
+  Theorem total_force_coupling (hA hB : list (R * R)) t sA fA sB fB xA xB :
+    map fst hA = map fst hB ->
+    nth_error hA t = Some (sA, fA) -> nth_error hB t = Some (sB, fB) ->
+    sA + fA <> 0 -> sB + fB <> 0 ->
+    nth_error (tf_trace Rops true true None 0 hA) (S t) = Some xA ->
+    nth_error (tf_trace Rops true true None 0 hB) (S t) = Some xB ->
+    xA = xB /\ xA = sA.
+  Proof.
+    intros Hs HA HB NA NB XA XB.
+    pose proof (tf_trace_spec hA None 0 t sA fA xA HA NA XA) as E1.
+    pose proof (tf_trace_spec hB None 0 t sB fB xB HB NB XB) as E2.
+    assert (E : sA = sB).
+    { pose proof (map_nth_error fst t hA HA) as M1. pose proof (map_nth_error fst t hB HB) as M2.
+      rewrite Hs in M1. rewrite M1 in M2. cbn in M2. inversion M2; reflexivity. }
+    split; [congruence | exact E1].
+  Qed.
+
+  (* when the engine's total force is exactly zero the applied force is not subtracted *)
+  Lemma total_force_coupling_zero :
+    exists (h : list (R * R)) s f x,
+      nth_error h 0 = Some (s, f) /\ s + f = 0 /\
+      nth_error (tf_trace Rops true true None 0 h) 1 = Some x /\ x <> s.
+  Proof.
+    exists [(1, -1); (0, 0)], 1, (-1), 0. repeat split; try reflexivity; try lra.
+    cbn [tf_trace nth_error]. unfold tf_report, engine_total, tf_end. cbn [andb nltb nmul n0 nsub nadd Rops].
+    assert (L : Rltb 0 ((1 + -1) * (1 + -1)) = false) by (apply Rltb_false; lra).
+    rewrite L. f_equal. lra.
+  Qed.
+  Lemma total_force_coupling_premises_sat :
+    exists (hA hB : list (R * R)) t sA fA sB fB xA xB,
+      map fst hA = map fst hB /\ nth_error hA t = Some (sA, fA) /\ nth_error hB t = Some (sB, fB) /\
+      sA + fA <> 0 /\ sB + fB <> 0 /\
+      nth_error (tf_trace Rops true true None 0 hA) (S t) = Some xA /\
+      nth_error (tf_trace Rops true true None 0 hB) (S t) = Some xB.
+  Proof.
+    exists [(1, 1); (0, 0)], [(1, 2); (0, 0)], 0%nat, 1, 1, 1, 2.
+    eexists. eexists. repeat split; try reflexivity; cbn; lra.
+  Qed.
+End TotalForceR.
+
+(* ================================================================================================== *)
+(* Part D: witnesses, computed in exact integer arithmetic                                             *)
+(* ================================================================================================== *)
+Definition Zops : NumOps Z :=
+  mkNumOps Z 0%Z 1%Z Z.add Z.sub Z.mul Z.div Z.opp (fun x => x) (fun x => x) (fun x => x) (fun x => x)
+           (fun x => x) (fun x => x) (fun x _ => x) (fun x _ => x) (fun z => z) (fun x => x) Z.ltb Z.leb Z.eqb.
+
+Section Witness.
+  (* one variable = z coordinate of atom 0 (coordinate index 2), value v *)
+  Definition wx (v : Z) : list (list (@cvc_in Z)) := [[mkCvc 1%Z 1%nat v [(2%nat, 1%Z)]]].
+  Definition wharm (tsf : Z) : (nat * Z * list nat * @kind Z) := (0%nat, tsf, [0%nat], KHarmonic 1%Z [(0%Z, 1%Z)]).
+  (* (step, activity of the biases, activity of the variables, energy, force on the z coordinate of atom 0) *)
+  Definition wview (o : @out Z (@kst Z)) :=
+    (o_it o, map (fun b => b_active b) (o_biases o), map (fun v => v_active v) (o_vars o), o_energy o,
+     coord_force Zops (o_vars o) 2).
+
+  (* a bias with factor 2 disabled by the user after step 1 is active again at step 2 *)
+  Lemma witness_disabled_tsf :
+    map wview (run_kinds Zops true true 0 [1%Z] [wharm 2]
+                 [EStep (wx 1); EStep (wx 1); ESetActive 0 false; EStep (wx 1)])
+    = [(0, [true], [true], 0, -2); (1, [false], [false], 0, 0); (2, [true], [true], 0, -2)]%Z.
+  Proof. vm_compute. reflexivity. Qed.
+
+  (* a variable with factor 2 used by a bias with factor 1 is evaluated and biased at step 1 *)
+  Lemma witness_variable_factor :
+    map wview (run_kinds Zops true true 0 [2%Z] [wharm 1] [EStep (wx 1); EStep (wx 3)])
+    = [(0, [true], [true], 0, -1); (1, [true], [true], 0, -3)]%Z.
+  Proof. vm_compute. reflexivity. Qed.
+
+  (* the same variable without a bias sleeps at step 1 *)
+  Lemma witness_variable_sleeps :
+    map wview (run_kinds Zops true true 0 [2%Z] [] [EStep (wx 1); EStep (wx 3); EStep (wx 3)])
+    = [(0, [], [true], 0, 0); (1, [], [false], 0, 0); (2, [], [true], 0, 0)]%Z.
+  Proof. vm_compute. reflexivity. Qed.
+
+  (* before the fix: first step 1, factor 2: the bias is active and applies twice its force at step 1 *)
+  Lemma witness_first_step_unfixed :
+    map wview (run_kinds Zops false true 1 [1%Z] [wharm 2] [EStep (wx 1); EStep (wx 1)])
+    = [(1, [true], [true], 0, -2); (2, [true], [true], 0, -2)]%Z.
+  Proof. vm_compute. reflexivity. Qed.
+  Lemma witness_first_step_fixed :
+    map wview (run_kinds Zops true true 1 [1%Z] [wharm 2] [EStep (wx 1); EStep (wx 1)])
+    = [(1, [false], [false], 0, 0); (2, [true], [true], 0, -2)]%Z.
+  Proof. vm_compute. reflexivity. Qed.
+
+  (* before the fix: a non-applying bias with energy 5 adds 5 to the reported energy *)
+  Lemma witness_energy_unfixed :
+    map wview (run_kinds Zops true false 0 [1%Z] [(0%nat, 1%Z, [0%nat], KConst 5%Z)] [EStep (wx 1)])
+    = [(0, [true], [true], 5, 0)]%Z.
+  Proof. vm_compute. reflexivity. Qed.
+  Lemma witness_energy_fixed :
+    map wview (run_kinds Zops true true 0 [1%Z] [(0%nat, 1%Z, [0%nat], KConst 5%Z)] [EStep (wx 1)])
+    = [(0, [true], [true], 0, 0)]%Z.
+  Proof. vm_compute. reflexivity. Qed.
+
+  (* superposition on a concrete run: factor-2 harmonic + factor-1 linear sharing the variable *)
+  Definition wlin : (nat * Z * list nat * @kind Z) := (1%nat, 1%Z, [0%nat], KLinear 3%Z [(0%Z, 1%Z)]).
+  Lemma witness_superposition :
+    let evs := [EStep (wx 1); EStep (wx 2); EStep (wx 4)] in
+    (map wview (run_kinds Zops true true 0 [1%Z] [wharm 2; wlin] evs),
+     map wview (run_kinds Zops true true 0 [1%Z] [wharm 2] evs),
+     map wview (run_kinds Zops true true 0 [1%Z] [wlin] evs))
+    = ([(0, [true; true], [true], 3, -5); (1, [false; true], [true], 6, -3); (2, [true; true], [true], 12, -11)],
+       [(0, [true], [true], 0, -2); (1, [false], [false], 0, 0); (2, [true], [true], 0, -8)],
+       [(0, [true], [true], 3, -3); (1, [true], [true], 6, -3); (2, [true], [true], 12, -3)])%Z.
+  Proof. vm_compute. reflexivity. Qed.
+End Witness.
+
+Lemma impulse_premises_sat :
+  exists (it0 m n : Z) (len : nat),
+    (1 < n)%Z /\ (0 <= it0)%Z /\ (it0 <= m * n)%Z /\ (Z.to_nat (m * n - it0) + Z.to_nat n <= len)%nat.
+Proof. exists 1%Z, 1%Z, 2%Z, 3%nat. cbn. repeat split; auto with zarith. Qed.
